@@ -129,9 +129,15 @@ def _eval_case(pp, job):
                 try:
                     impl = common.with_alarm(CASE_TIMEOUT, gram.run_entry, pp, root, entry, s, opts)
                 except common.CaseTimeout:
-                    impl = "hang"
-                    with _TIMEOUTS.get_lock():
-                        _TIMEOUTS.value += 1
+                    # slow is not the same as stuck (exponential backtracking on a long input): one more try with a
+                    # limit 10x as generous before the call is recorded as `hang`
+                    try:
+                        set_mode(pp, mode)
+                        impl = common.with_alarm(CASE_TIMEOUT * 10, gram.run_entry, pp, root, entry, s, opts)
+                    except common.CaseTimeout:
+                        impl = "hang"
+                        with _TIMEOUTS.get_lock():
+                            _TIMEOUTS.value += 1
                 finally:
                     pp.ParserElement.disable_memoization()
                 line = gram.model_line(mode_sexp(mode), entry, FUEL, ri, dw, s, keep, opts, nodes)
